@@ -186,6 +186,18 @@ partial def modelBoundedGo (I : Inst) (R : RoomFns) (fuel : Nat) (nd : Node) : O
       (best', ok', f')) (none, true, fuel - 1)
   | _ => (none, true, fuel - 1)
 
+/- all feasible scores of the model's (unpruned) tree -/
+open N2 in
+partial def modelScoresGo (I : Inst) (R : RoomFns) (limit : Nat) (work : List Node) (acc : List Nat) (cnt : Nat) : List Nat :=
+  match work with
+  | [] => acc
+  | nd :: rest =>
+    if cnt ≥ limit then acc else
+    match runNodeS I R nd with
+    | .ok (.feasible _ s) => modelScoresGo I R limit rest (if acc.contains s then acc else s :: acc) (cnt + 1)
+    | .ok (.infeasible kids _) => modelScoresGo I R limit (kids ++ rest) acc (cnt + 1)
+    | _ => modelScoresGo I R limit rest acc (cnt + 1)
+
 open N2 in
 def handleB (payload : String) : String :=
   match payload.splitOn "#" with
@@ -194,7 +206,8 @@ def handleB (payload : String) : String :=
     let (best, _, complete) := modelBestGo I R 5000 [⟨[], [], []⟩] none 0
     let b := match best with | none => "none" | some s => toString s
     let (_, bounded, left) := modelBoundedGo I R 5000 ⟨[], [], []⟩
-    s!"best={b} complete={complete} bounded={bounded && left > 0}"
+    let scores := modelScoresGo I R 5000 [⟨[], [], []⟩] [] 0
+    s!"best={b} complete={complete} bounded={bounded && left > 0} scores={",".intercalate (scores.map toString)}"
   | _ => "bad"
 
 /-! ## S: k-selection iterator and binom -/
